@@ -164,6 +164,20 @@ let () =
                          string_of_int (int_of_n i.i_refs) ^ " " ^ string_of_int (int_of_n i.i_labels) ^
                          " S" ^ tags i.i_shape_tags ^ " L" ^ tags i.i_label_tags)
          | o -> out id "M" (status o))
+    | "raw" ->
+        (match words payload with
+         | [_mask; hx] ->
+             (match read_rawcells_model (bytes_of_hex hx) with
+              | Ok ((entries, cells), missing) ->
+                  let arr = Array.of_list cells in
+                  let line e =
+                    let deps = List.sort compare (List.map (fun id -> bytes_to_hexs arr.(int_of_nat id).rc_name) e.e_deps) in
+                    " K " ^ bytes_to_hexs e.e_key ^ " " ^ bytes_to_hexs e.e_cell.rc_name ^ " " ^ string_of_int (int_of_n e.e_cell.rc_off) ^
+                    " " ^ string_of_int (int_of_n e.e_cell.rc_size) ^ " D" ^ String.concat "" (List.map (fun d -> " " ^ d) deps) in
+                  out id "M" ("RAW " ^ string_of_int (List.length entries) ^ String.concat "" (List.sort compare (List.map line entries)) ^
+                              " missing=" ^ (if missing then "1" else "0"))
+              | o -> out id "M" (status o))
+         | _ -> out id "M" "bad-case")
     | "ts" ->
         let bs = bytes_of_hex payload in
         let new24 = List.concat (List.map enc16 (List.map z_of_int [1999; 1; 2; 3; 4; 5; 1999; 1; 2; 3; 4; 5])) in
